@@ -1,13 +1,190 @@
 import DoviModel.Proofs.Split
 import DoviModel.Proofs.Esc
-/-! # C18 — model theorems are added here as the stream-level model (M7/M8) is completed -/
+import DoviModel.Proofs.Hevc
+/-!
+# C18 — --drop-hdr10plus removes exactly the HDR10+ SEI messages
+
+Theorems about `Hevc.Sei.dropHdr10plus` (model of `prefix_sei_removed_hdr10plus_nalu` on top of the SEI walker
+of hevc_parser) and about the place of the option in the five commands (`seiStage`).  `./check C18` ties the
+model to the real CLI (ops `hevc.general`, `hevc.mux`, `hevc.inject`, `sei.drop`).
+
+The NAL-level theorems quantify over **all** message lists: a prefix SEI NAL is any byte string `d` whose
+unescaped form, trailing zero bytes stripped, is `seiRbsp h0 h1 ms` = 2-byte header, the messages `ms` coded as
+H.265 7.3.5 prescribes (`0xFF`-extended type and size), `0x80` — with every payload type ≤ 255 (hevc_parser 0.6.8
+holds the type in a `u8`; above that the tool fails, see the model) and at least one message.
+-/
 namespace Dovi.C18
-open Dovi Dovi.Split
+open Dovi Dovi.Split Dovi.Hevc Dovi.Hevc.Sei
 
 /-- both layers are read through the same chunked reader: the NAL list each layer contributes does not depend
 on where its read boundaries fall -/
 theorem layer_chunking_irrelevant (cs cs' : List Bytes) (l l' : Bytes)
     (h : cs.flatten ++ l = cs'.flatten ++ l') : run [] cs l = run [] cs' l' := by
   rw [run_eq_split, run_eq_split]; simp [h]
+
+/-! ## one NAL unit -/
+
+/-- the walker reads back exactly the coded messages (types, payload bytes, order), whatever the payloads
+contain (emulation-prevention patterns, `0xFF` bytes) and whatever their sizes -/
+theorem sei_walker_roundtrip (d : Bytes) (h0 h1 : UInt8) (ms : List (Nat × Bytes))
+    (hp : Sei.stripZeros (Esc.unescape d) = seiRbsp h0 h1 ms) (hh : isSeiHdr h0) (hne : ms ≠ [])
+    (ht : ∀ m ∈ ms, m.1 ≤ 255) : messages d = some ms :=
+  messages_of_rbsp d h0 h1 ms hp hh hne ht
+
+/-- **What the option does to a prefix SEI NAL**: no ST 2094-40 message → the input bytes; it is the only
+message → the NAL is dropped; otherwise → the NAL re-coded without the *first* ST 2094-40 message. -/
+theorem drop_result (d : Bytes) (h0 h1 : UInt8) (ms : List (Nat × Bytes))
+    (hp : Sei.stripZeros (Esc.unescape d) = seiRbsp h0 h1 ms) (hh : isSeiHdr h0) (hne : ms ≠ [])
+    (ht : ∀ m ∈ ms, m.1 ≤ 255) :
+    dropHdr10plus d =
+      if (∀ m ∈ ms, isHdrMsg m = false) then Res.keep d
+      else if ms.length > 1 then Res.keep (Esc.escape (seiRbsp h0 h1 (ms.eraseP isHdrMsg)))
+      else Res.dropped :=
+  drop_spec d h0 h1 ms hp hh hne ht
+
+/-- a NAL holding only the ST 2094-40 message is dropped -/
+theorem only_hdr10plus_nal_dropped (d : Bytes) (h0 h1 : UInt8) (m : Nat × Bytes)
+    (hp : Sei.stripZeros (Esc.unescape d) = seiRbsp h0 h1 [m]) (hh : isSeiHdr h0) (ht : m.1 ≤ 255)
+    (hm : isHdrMsg m = true) : dropHdr10plus d = Res.dropped := by
+  rw [drop_spec d h0 h1 [m] hp hh (by simp) (by simpa using ht)]
+  simp [hm]
+
+/-- **Every NAL that holds no HDR10+ message is passed through unchanged** (the very bytes, not a re-coding) -/
+theorem non_hdr10plus_untouched (d : Bytes) (h0 h1 : UInt8) (ms : List (Nat × Bytes))
+    (hp : Sei.stripZeros (Esc.unescape d) = seiRbsp h0 h1 ms) (hh : isSeiHdr h0) (hne : ms ≠ [])
+    (ht : ∀ m ∈ ms, m.1 ≤ 255) (hno : ∀ m ∈ ms, isHdrMsg m = false) : dropHdr10plus d = Res.keep d := by
+  rw [drop_spec d h0 h1 ms hp hh hne ht, if_pos hno]
+
+/-- **The other messages keep their bytes and order**: the rewritten NAL holds the input's messages without
+the first ST 2094-40 one — without all of them when there is at most one, as in conformant streams. -/
+theorem drop_keeps_others (d d' : Bytes) (h0 h1 : UInt8) (ms : List (Nat × Bytes))
+    (hp : Sei.stripZeros (Esc.unescape d) = seiRbsp h0 h1 ms) (hh : isSeiHdr h0) (hne : ms ≠ [])
+    (ht : ∀ m ∈ ms, m.1 ≤ 255) (hhas : ∃ m ∈ ms, isHdrMsg m = true)
+    (hk : dropHdr10plus d = Res.keep d') :
+    messages d' = some (ms.eraseP isHdrMsg) ∧
+    ((ms.filter isHdrMsg).length ≤ 1 → ms.eraseP isHdrMsg = ms.filter (fun m => !isHdrMsg m)) := by
+  refine ⟨?_, eraseP_eq_filter_of_atMostOne isHdrMsg ms⟩
+  rw [drop_spec d h0 h1 ms hp hh hne ht] at hk
+  have hnot : ¬ (∀ m ∈ ms, isHdrMsg m = false) := by
+    intro h; obtain ⟨m, hm, hmh⟩ := hhas; simp [h m hm] at hmh
+  rw [if_neg hnot] at hk
+  split at hk
+  · rename_i hlen
+    simp only [Res.keep.injEq] at hk
+    subst hk
+    apply messages_escape_rbsp h0 h1 _ hh
+    · intro he
+      have := congrArg List.length he
+      obtain ⟨m, hm, hmh⟩ := hhas
+      rw [List.length_eraseP_of_mem hm hmh] at this
+      simp at this; omega
+    · intro m hm; exact ht m (List.mem_of_mem_eraseP hm)
+  · cases hk
+
+/-- **No ST 2094-40 message remains** in a NAL the option lets through, for every NAL with at most one such
+message (the property's quantifier; with two, the tool removes only the first — see `drop_result`). -/
+theorem no_hdr10plus_left (d d' : Bytes) (h0 h1 : UInt8) (ms : List (Nat × Bytes))
+    (hp : Sei.stripZeros (Esc.unescape d) = seiRbsp h0 h1 ms) (hh : isSeiHdr h0) (hne : ms ≠ [])
+    (ht : ∀ m ∈ ms, m.1 ≤ 255) (hone : (ms.filter isHdrMsg).length ≤ 1)
+    (hk : dropHdr10plus d = Res.keep d') :
+    ∃ ms', messages d' = some ms' ∧ ∀ m ∈ ms', isHdrMsg m = false := by
+  by_cases hno : ∀ m ∈ ms, isHdrMsg m = false
+  · rw [non_hdr10plus_untouched d h0 h1 ms hp hh hne ht hno] at hk
+    simp only [Res.keep.injEq] at hk
+    subst hk
+    exact ⟨ms, messages_of_rbsp d h0 h1 ms hp hh hne ht, hno⟩
+  · have hhas : ∃ m ∈ ms, isHdrMsg m = true := by
+      apply Classical.byContradiction
+      intro hn
+      apply hno
+      intro m hm
+      cases hmm : isHdrMsg m with
+      | false => rfl
+      | true => exact absurd ⟨m, hm, hmm⟩ hn
+    obtain ⟨h1', h2'⟩ := drop_keeps_others d d' h0 h1 ms hp hh hne ht hhas hk
+    refine ⟨_, h1', ?_⟩
+    rw [h2' hone]
+    intro m hm
+    simpa using (List.mem_filter.mp hm).2
+
+/-! ## the option inside the commands -/
+
+/-- convert / demux / remove: with the option, the bytes written to every output are those of the same
+command without it, run on the stream whose prefix SEI NALs were rewritten one by one (`seiStage`: dropped,
+re-coded, or left alone); the command fails iff an SEI does not parse or the command without the option
+fails.  In particular no NAL other than a prefix SEI is touched. -/
+theorem general_drop_is_sei_stage (c : Cfg) (conv : Bytes → Option Bytes) (items : List Item) :
+    (general { c with drop := true } conv items).map payS =
+      (seiStage true items).bind (fun its => (general { c with drop := false } conv its).map payS) :=
+  run_drop_stage c conv {} {} items rfl
+
+/-- mux: likewise, exactly (start codes included), on the base layer -/
+theorem mux_drop_is_sei_stage (c : MCfg) (aud : Nat → Bytes) (conv : Bytes → Option Bytes) (bl el : List Item) :
+    mux { c with drop := true } aud conv bl el =
+      (seiStage true bl).bind (fun b => mux { c with drop := false } aud conv b el) :=
+  mux_drop_stage c aud conv bl el
+
+/-- inject-rpu: likewise -/
+theorem inject_drop_is_sei_stage (c : ICfg) (aud : Nat → Bytes) (pres : Nat → Nat) (n : Nat) (rpus : List Bytes)
+    (items : List Item) (hn : n ≠ 0) :
+    inject { c with drop := true } aud pres n rpus items =
+      (seiStage true items).bind (fun its => inject { c with drop := false } aud pres n rpus its) :=
+  inject_drop_stage c aud pres n rpus items hn
+
+/-- every prefix SEI NAL of the staged stream is the rewrite (`keep`) of a prefix SEI NAL of the input in the
+same access unit, every other NAL of it is a NAL of the input: together with `no_hdr10plus_left`, no
+ST 2094-40 message remains in the output of any of the five commands -/
+theorem staged_stream_origin (items its : List Item) (h : seiStage true items = some its) :
+    ∀ x ∈ its, (x.typ = NAL_SEI_PREFIX → ∃ it ∈ items, it.typ = NAL_SEI_PREFIX ∧ it.au = x.au ∧
+        dropHdr10plus it.data = Res.keep x.data) ∧
+      (x.typ ≠ NAL_SEI_PREFIX → x ∈ items) :=
+  seiStage_mem items its h
+
+/-- a stream whose prefix SEI NALs hold no ST 2094-40 message goes through convert / demux / remove with the
+option exactly as without it (start codes included) -/
+theorem stream_without_hdr10plus_untouched (c : Cfg) (conv : Bytes → Option Bytes) (items : List Item)
+    (h : ∀ it ∈ items, it.typ = NAL_SEI_PREFIX → dropHdr10plus it.data = Res.keep it.data) :
+    general { c with drop := true } conv items = general { c with drop := false } conv items :=
+  run_drop_id c conv {} items h
+
+/-- **Option absent: the whole stream is passed through unchanged** — convert without any option writes the
+input NAL sequence, every NAL with its bytes, in order; in mux and inject-rpu the SEI stage is the identity. -/
+theorem option_absent_identity (conv : Bytes → Option Bytes) (items : List Item) (annexb : Bool) :
+    (general { cfgConvert with annexb := annexb } conv items).map (fun s => s.sl.map pay) = some (items.map payI) ∧
+    seiStage false items = some items := by
+  refine ⟨?_, seiStage_false items⟩
+  have := run_sl_spec { cfgConvert with annexb := annexb } conv {} items rfl rfl rfl
+  rw [general, this]
+  have e : (List.filter (fun it => decide ¬(it.typ = NAL_UNSPEC63 ∧ ({ cfgConvert with annexb := annexb } : Cfg).discard = true)) items) = items := by
+    rw [List.filter_eq_self]; intro a _; simp [cfgConvert]
+  rw [e]
+  have : slSpec ({ cfgConvert with annexb := annexb } : Cfg).convSet conv = fun it => some (payI it) := by
+    funext it; simp [slSpec, cfgConvert]
+  rw [this, optMap_some]
+
+/-! ## non-vacuity -/
+
+/-- a prefix SEI NAL with three messages, the ST 2094-40 one in the middle; the cut joins `.. 00 00` with a
+message of type 1, so the re-coded NAL needs an emulation-prevention byte the input did not have -/
+def exSei : Bytes := Esc.escape (seiRbsp 0x4E 0x01
+  [(144, [7, 0, 0]), (4, hdrHead ++ [0x11, 0x22]), (1, [0x33])])
+
+example : Sei.stripZeros (Esc.unescape exSei) = seiRbsp 0x4E 0x01 [(144, [7, 0, 0]), (4, hdrHead ++ [0x11, 0x22]), (1, [0x33])]
+    ∧ isSeiHdr 0x4E ∧ messages exSei = some [(144, [7, 0, 0]), (4, hdrHead ++ [0x11, 0x22]), (1, [0x33])] := by decide
+
+example : dropHdr10plus exSei = Res.keep [0x4E, 0x01, 144, 3, 7, 0, 0, 3, 1, 1, 0x33, 0x80] := by decide
+
+example : dropHdr10plus (Esc.escape (seiRbsp 0x4E 0x01 [(4, hdrHead ++ [0x11, 0x22])])) = Res.dropped := by decide
+
+/-- a T.35 message of another provider is not taken for HDR10+ -/
+example : dropHdr10plus (Esc.escape (seiRbsp 0x4E 0x01 [(4, [0xB5, 0, 0x31, 0x47, 0x41, 0x39, 0x34, 1])])) =
+    Res.keep (Esc.escape (seiRbsp 0x4E 0x01 [(4, [0xB5, 0, 0x31, 0x47, 0x41, 0x39, 0x34, 1])])) := by decide
+
+/-- inside a stream: the SEI-only NAL disappears, the multi-message one is re-coded, everything else stays -/
+example : (general { cfgConvert with drop := true } (fun _ => none)
+    [⟨35, [0x46, 1, 0x10], 0⟩, ⟨39, Esc.escape (seiRbsp 0x4E 0x01 [(4, hdrHead ++ [0x11])]), 0⟩, ⟨39, exSei, 0⟩,
+     ⟨19, [0x26, 1, 0xAA], 0⟩, ⟨62, [0x7C, 1, 0x19, 0xA0], 0⟩]).map (fun s => s.sl.map pay) = some
+    [(35, [0x46, 1, 0x10]), (39, [0x4E, 0x01, 144, 3, 7, 0, 0, 3, 1, 1, 0x33, 0x80]), (19, [0x26, 1, 0xAA]),
+     (62, [0x7C, 1, 0x19, 0xA0])] := by decide
 
 end Dovi.C18
